@@ -36,20 +36,31 @@ theorem array_op_elementwise (env : Env) (d : Bool) (op : Op) (q1 q2 : Quantity)
   exact (scalar_op_scalar_ok_iff env d op q1 q2 _ _ q zs[i]).mpr ⟨t1, t2, hf, this⟩
 
 /-- **Conversely**: equal lengths, the Scalar operator succeeds with one quantity `q` on every pair of
-corresponding elements (and on `(1.0, 1.0)`, which the per-element branch evaluates first) ⇒ the
-Array operator succeeds with exactly those elements, that quantity and the container `resultKind`.
-Nothing is dropped, reordered or truncated. -/
+corresponding elements ⇒ the Array operator succeeds with exactly those elements, that quantity and the
+container `resultKind`.  Nothing is dropped, reordered or truncated.  Only for operands WITHOUT values the
+Scalar operator must also succeed on `(1.0, 1.0)` (since repair 4829052 the per-element branch evaluates these
+dummy amounts only when there is no value to take the quantity from). -/
 theorem array_op_of_scalars (env : Env) (d : Bool) (op : Op) (q1 q2 : Quantity) (k1 k2 : Kind)
     (xs ys : List Rat) (q : Quantity) (zs : List Rat)
     (hlen : xs.length = ys.length) (hz : zs.length = xs.length)
-    (hprobe : ∃ z1, binop env d op (.scalar q1 1) (.scalar q2 1) = .ok (.scalar q z1))
+    (hprobe : xs = [] → ∃ z1, binop env d op (.scalar q1 1) (.scalar q2 1) = .ok (.scalar q z1))
     (hall : ∀ i (h1 : i < xs.length) (h2 : i < ys.length) (h3 : i < zs.length),
       binop env d op (.scalar q1 xs[i]) (.scalar q2 ys[i]) = .ok (.scalar q zs[i])) :
     binop env d op (.array q1 k1 xs) (.array q2 k2 ys) = .ok (.array q (resultKind k1 k2) zs) := by
-  obtain ⟨z1, hp⟩ := hprobe
-  obtain ⟨t1, t2, hf, hp1⟩ := (scalar_op_scalar_ok_iff env d op q1 q2 1 1 q z1).mp hp
+  -- the database operation: from the first pair of values, or from the dummy amounts when there is none
+  have hf : ∃ t1 t2, opFunc env op q1 q2 = .ok (q, t1, t2) ∧ (xs = [] → ∃ z, applyOp op t1 t2 1 1 = .ok z) := by
+    cases xs with
+    | nil =>
+      obtain ⟨z1, hp⟩ := hprobe rfl
+      obtain ⟨t1, t2, hf, hp1⟩ := (scalar_op_scalar_ok_iff env d op q1 q2 1 1 q z1).mp hp
+      exact ⟨t1, t2, hf, fun _ => ⟨z1, hp1⟩⟩
+    | cons x xs' =>
+      have h0 := hall 0 (by simp) (by simp at hlen; omega) (by simp at hz; omega)
+      obtain ⟨t1, t2, hf, _⟩ := (scalar_op_scalar_ok_iff env d op q1 q2 _ _ q _).mp h0
+      exact ⟨t1, t2, hf, fun h => by simp at h⟩
+  obtain ⟨t1, t2, hf, hp⟩ := hf
   refine (array_op_array_ok_iff env d op q1 q2 k1 k2 xs ys _).mpr
-    ⟨hlen, q, t1, t2, zs, hf, fun _ => ⟨z1, hp1⟩, ?_, rfl⟩
+    ⟨hlen, q, t1, t2, zs, hf, fun _ hx => hp hx, ?_, rfl⟩
   refine (mapE_eq_ok_iff _ _ _).mpr ⟨by rw [List.length_zip]; omega, fun i h1 h2 => ?_⟩
   rw [List.length_zip] at h1
   obtain ⟨t1', t2', hf', ha⟩ := (scalar_op_scalar_ok_iff env d op q1 q2 _ _ q _).mp
@@ -93,22 +104,24 @@ theorem array_op_kind_independent (env : Env) (d : Bool) (op : Op) (q1 q2 : Quan
   cases hm'
   exact ⟨rfl, rfl⟩
 
-/-- neither does success, once the operation is defined on `(1.0, 1.0)` (the probe of the per-element branch) -/
+/-- neither does success; only for operands WITHOUT values the operation must be defined on `(1.0, 1.0)` (the dummy
+amounts of the per-element branch, which the vectorised branch does not evaluate) -/
 theorem array_op_kind_independent_success (env : Env) (d : Bool) (op : Op) (q1 q2 : Quantity)
     (k1 k2 k1' k2' : Kind) (xs ys : List Rat) (o : Out)
-    (hprobe : ∃ p, binop env d op (.scalar q1 1) (.scalar q2 1) = .ok p)
+    (hprobe : xs = [] → ∃ p, binop env d op (.scalar q1 1) (.scalar q2 1) = .ok p)
     (h : binop env d op (.array q1 k1 xs) (.array q2 k2 ys) = .ok o) :
     ∃ o', binop env d op (.array q1 k1' xs) (.array q2 k2' ys) = .ok o' := by
   obtain ⟨hlen, q, t1, t2, zs, hf, _, hm, rfl⟩ := (array_op_array_ok_iff env d op q1 q2 k1 k2 xs ys _).mp h
-  obtain ⟨p, hp⟩ := hprobe
+  refine ⟨_, (array_op_array_ok_iff env d op q1 q2 k1' k2' xs ys _).mpr
+    ⟨hlen, q, t1, t2, zs, hf, fun _ hx => ?_, hm, rfl⟩⟩
+  obtain ⟨p, hp⟩ := hprobe hx
   obtain ⟨qp, zp, rfl⟩ : ∃ qp zp, p = .scalar qp zp := by
     simp only [binop] at hp
     exact scalarDoOp_quantity hp
   obtain ⟨t1', t2', hf', hp1⟩ := (scalar_op_scalar_ok_iff env d op q1 q2 1 1 qp zp).mp hp
   rw [hf] at hf'
   cases hf'
-  exact ⟨_, (array_op_array_ok_iff env d op q1 q2 k1' k2' xs ys _).mpr
-    ⟨hlen, q, t1, t2, zs, hf, fun _ => ⟨zp, hp1⟩, hm, rfl⟩⟩
+  exact ⟨zp, hp1⟩
 
 /-! ### different lengths are rejected, never truncated or broadcast -/
 
@@ -129,7 +142,7 @@ theorem array_op_empty (env : Env) (d : Bool) (op : Op) (q1 q2 : Quantity) (k1 k
       ∀ x y p, binop env d op (.scalar q1 x) (.scalar q2 y) = .ok p → p.quantity? = o.quantity?) := by
   constructor
   · intro q z hp
-    exact array_op_of_scalars env d op q1 q2 k1 k2 [] [] q [] rfl rfl ⟨z, hp⟩ (fun i h1 => by simp at h1)
+    exact array_op_of_scalars env d op q1 q2 k1 k2 [] [] q [] rfl rfl (fun _ => ⟨z, hp⟩) (fun i h1 => by simp at h1)
   · intro o h
     obtain ⟨_, q, t1, t2, zs, hf, _, hm, rfl⟩ := (array_op_array_ok_iff env d op q1 q2 k1 k2 [] [] _).mp h
     simp only [List.zip_nil_right, mapE, Except.ok.injEq] at hm
@@ -178,6 +191,97 @@ theorem fromScalars_index_same_unit (env : Env) (s0 : SimpleScalar) (ss : List S
   simp only [SimpleScalar.getValue, hu, beq_self_eq_true, ↓reduceIte, Except.ok.injEq] at h2
   rw [h1, h2]
 
+/-! ### `Array.FromScalars(scalars, unit=…, category=…)`: every argument form, simple, derived and empty quantities -/
+
+/-- no Scalar and no keyword: `CreateEmptyArray()` -/
+theorem fromScalarsKw_empty (env : Env) : fromScalarsKw env [] none none = .ok (.array emptyQ .list []) := rfl
+
+/-- no Scalar, only `unit`: an empty Array of the unit's default category (when it has one and the pair is valid) -/
+theorem fromScalarsKw_empty_unit (env : Env) (u c u' : Sym)
+    (hc : env.defaultCategory u = .ok (some c)) (hq : env.obtainSimple c u = .ok u') :
+    fromScalarsKw env [] (some u) none = .ok (.array [⟨c, u', 1⟩] .list []) := by
+  simp [fromScalarsKw, fromScalarsNone, newArray, hc, hq]
+
+/-- no Scalar but a `category`: rejected (with and without `unit`), never an Array of a guessed unit -/
+theorem fromScalarsKw_empty_category (env : Env) (unit : Option Sym) (c : Sym) :
+    fromScalarsKw env [] unit (some c) = .error .assertion := by
+  cases unit <;> rfl
+
+/-- **every argument form**: with `u = unit or first.unit`, `c = category or first.category`, a successful
+`FromScalars` returns a list Array of the simple quantity `ObtainQuantity(u, c)`, one value per Scalar, and position `i`
+holds the amount of the `i`-th Scalar re-expressed in `u` (`Scalar.GetValue(u)`); positions past the end raise
+`IndexError`.  Scalars of simple, derived and empty quantities alike. -/
+theorem fromScalarsKw_index (env : Env) (s0 : QScalar) (ss : List QScalar) (unit category : Option Sym) (o : Out)
+    (h : fromScalarsKw env (s0 :: ss) unit category = .ok o) :
+    ∃ u', env.obtainSimple (pyOr category (quantityCategory s0.q)) (pyOr unit (quantityUnit s0.q)) = .ok u' ∧
+    o.quantity? = some [⟨pyOr category (quantityCategory s0.q), u', 1⟩] ∧
+    (∀ i (hi : i < (s0 :: ss).length), ∃ v, o.index i = .ok v ∧
+      ((s0 :: ss)[i]).getValue env (pyOr unit (quantityUnit s0.q)) = .ok v) ∧
+    (∀ i, (s0 :: ss).length ≤ i → o.index i = .error .index) := by
+  simp only [fromScalarsKw] at h
+  cases hm : mapE (fun s => QScalar.getValue env s (pyOr unit (quantityUnit s0.q))) (s0 :: ss) with
+  | error e => simp [hm] at h
+  | ok vs =>
+    simp only [hm, newArray] at h
+    cases hc : env.obtainSimple (pyOr category (quantityCategory s0.q)) (pyOr unit (quantityUnit s0.q)) with
+    | error e => simp [hc] at h
+    | ok u' =>
+      simp only [hc, Except.ok.injEq] at h
+      subst h
+      obtain ⟨hl, hall⟩ := (mapE_eq_ok_iff _ _ _).mp hm
+      refine ⟨u', rfl, rfl, fun i hi => ⟨vs[i]'(by omega), ?_, hall i hi (by omega)⟩, fun i hi => ?_⟩
+      · simp [Out.index, List.getElem?_eq_getElem (show i < vs.length by omega)]
+      · simp [Out.index, List.getElem?_eq_none (show vs.length ≤ i by omega)]
+
+/-- a Scalar whose unit string is the Array's unit comes back unchanged: exactly the original amount (this is the
+only way a Scalar of a derived quantity is accepted) -/
+theorem fromScalarsKw_index_same_unit (env : Env) (s0 : QScalar) (ss : List QScalar) (unit category : Option Sym)
+    (o : Out) (h : fromScalarsKw env (s0 :: ss) unit category = .ok o) (i : Nat) (hi : i < (s0 :: ss).length)
+    (hu : quantityUnit ((s0 :: ss)[i]).q = pyOr unit (quantityUnit s0.q)) : o.index i = .ok ((s0 :: ss)[i]).v := by
+  obtain ⟨_, _, _, hidx, _⟩ := fromScalarsKw_index env s0 ss unit category o h
+  obtain ⟨v, h1, h2⟩ := hidx i hi
+  simp only [QScalar.getValue, hu, beq_self_eq_true, ↓reduceIte, Except.ok.injEq] at h2
+  rw [h1, h2]
+
+/-- without keywords the first Scalar always comes back unchanged, and the Array carries its unit and category -/
+theorem fromScalarsKw_first (env : Env) (s0 : QScalar) (ss : List QScalar) (o : Out)
+    (h : fromScalarsKw env (s0 :: ss) none none = .ok o) : o.index 0 = .ok s0.v :=
+  fromScalarsKw_index_same_unit env s0 ss none none o h 0 (by simp) rfl
+
+/-- Scalars of simple quantities: the amount at position `i` is the conversion of the `i`-th value from its own unit
+to the Array's unit within its quantity type -/
+theorem fromScalarsKw_index_simple (env : Env) (s0 : QScalar) (ss : List QScalar) (unit category : Option Sym)
+    (o : Out) (h : fromScalarsKw env (s0 :: ss) unit category = .ok o) (i : Nat) (hi : i < (s0 :: ss).length)
+    (c u : Sym) (hq : ((s0 :: ss)[i]).q = [⟨c, u, 1⟩]) :
+    ∃ v, o.index i = .ok v ∧
+      (⟨c, u, ((s0 :: ss)[i]).v⟩ : SimpleScalar).getValue env (pyOr unit (quantityUnit s0.q)) = .ok v := by
+  obtain ⟨_, _, _, hidx, _⟩ := fromScalarsKw_index env s0 ss unit category o h
+  obtain ⟨v, h1, h2⟩ := hidx i hi
+  refine ⟨v, h1, ?_⟩
+  simpa [QScalar.getValue, SimpleScalar.getValue, hq, quantityUnit] using h2
+
+/-- Scalars of derived quantities are never converted: one whose unit string differs from the Array's unit makes
+`FromScalars` fail (several composing units: `ComposedUnitError`; one with an exponent: `ValueError`) -/
+theorem fromScalarsKw_derived_other_unit (env : Env) (s0 : QScalar) (ss : List QScalar) (unit category : Option Sym)
+    (i : Nat) (hi : i < (s0 :: ss).length) (hd : isSimpleQ ((s0 :: ss)[i]).q = false) (hne : ((s0 :: ss)[i]).q ≠ [])
+    (hu : quantityUnit ((s0 :: ss)[i]).q ≠ pyOr unit (quantityUnit s0.q)) :
+    ∃ e, fromScalarsKw env (s0 :: ss) unit category = .error e := by
+  cases h : fromScalarsKw env (s0 :: ss) unit category with
+  | error e => exact ⟨e, rfl⟩
+  | ok o =>
+    exfalso
+    obtain ⟨_, _, _, hidx, _⟩ := fromScalarsKw_index env s0 ss unit category o h
+    obtain ⟨v, _, h2⟩ := hidx i hi
+    have hb : (quantityUnit ((s0 :: ss)[i]).q == pyOr unit (quantityUnit s0.q)) = false := by simpa using hu
+    simp only [QScalar.getValue, hb, Bool.false_eq_true, ↓reduceIte] at h2
+    generalize ((s0 :: ss)[i]).q = q at hd hne h2
+    match q, hd, hne, h2 with
+    | [], _, hne, _ => exact hne rfl
+    | [e], hd, _, h2 =>
+      simp only [isSimpleQ] at hd
+      simp [hd] at h2
+    | _ :: _ :: _, _, _, h2 => simp at h2
+
 /-! ### unit conversion of an Array is the conversion of its Scalars -/
 
 /-- `Array.GetValues(u)` keeps the container kind and the length, and position `i` is
@@ -208,6 +312,31 @@ theorem getValues_elementwise (env : Env) (cat unit u qt : Sym) (kind kind' : Ki
         refine ⟨rfl, hl, fun i h1 h2 => ?_⟩
         simp only [SimpleScalar.getValue, hu, Bool.false_eq_true, ↓reduceIte, hqt, ← hcq]
         exact hall i h1 h2
+
+/-- the same for an Array over a list / tuple of tuples (`IsListOfTuples`): the rows keep their number and their
+lengths, and element `j` of row `i` is `Scalar(rows[i][j], unit, category).GetValue(u)` -/
+theorem getValuesRows_elementwise (env : Env) (cat unit u qt : Sym) (rows out : List (List Rat))
+    (hqt : env.qtype cat = .ok qt) (hcq : ∀ x, env.convert cat unit u x = env.convert qt unit u x)
+    (h : arrayGetValuesRows env cat unit rows u = .ok out) :
+    out.length = rows.length ∧
+    ∀ i (h1 : i < rows.length) (h2 : i < out.length), (out[i]).length = (rows[i]).length ∧
+      ∀ j (h3 : j < (rows[i]).length) (h4 : j < (out[i]).length),
+        (⟨cat, unit, (rows[i])[j]⟩ : SimpleScalar).getValue env u = .ok (out[i])[j] := by
+  unfold arrayGetValuesRows at h
+  by_cases hu : (unit == u) = true
+  · simp only [hu, ↓reduceIte, Except.ok.injEq] at h
+    subst h
+    exact ⟨rfl, fun i h1 h2 => ⟨rfl, fun j h3 h4 => by simp [SimpleScalar.getValue, hu]⟩⟩
+  · simp only [hu, Bool.false_eq_true, ↓reduceIte] at h
+    obtain ⟨hl, hall⟩ := (mapE_eq_ok_iff _ _ _).mp h
+    refine ⟨hl, fun i h1 h2 => ?_⟩
+    obtain ⟨hl2, hall2⟩ := (mapE_eq_ok_iff _ _ _).mp (hall i h1 h2)
+    refine ⟨hl2, fun j h3 h4 => ?_⟩
+    have hj := hall2 j h3 h4
+    simp only [SimpleScalar.getValue, hu, Bool.false_eq_true, ↓reduceIte, hqt, ← hcq]
+    cases hlk : env.convertLookup cat unit u with
+    | error e => simp [hlk] at hj
+    | ok _ => simpa [hlk] using hj
 
 /-! ### non-vacuity (example database of `OpsLemmas`: unit 12 is 1/100 of unit 11) -/
 
